@@ -533,6 +533,34 @@ func corpus(r *core.Run) {
 		r.Check(broken == 0, "session-broken", fmt.Sprintf("corpus 8b: %d of 30 sessions broke", broken))
 		r.Check(leaked == 0, "plaintext-at-database", fmt.Sprintf("COM_STMT_PREPARE sent right after the response of a COM_QUERY: in %d of 30 sessions the statement was not registered and the COM_STMT_EXECUTE parameter of the encrypted column reached the database in clear (decryptor/mysql/response_proxy.go: handler reset after the response was written)", leaked))
 	}
+	// 8c. a text row whose first column is the empty string (fixed: taken for the end of the result set, the rows
+	// were relayed undecrypted)
+	{
+		r.Begin("corpus-my-text-row-leading-empty", true, "case:corpus")
+		w, a := myOpen()
+		a.C.Query("insert into t1 (id, data, note) values (1, 'SECRETMARKER14', '')")
+		a.C.Query("insert into t1 (id, data, note) values (2, 'SECRETMARKER15', 'x')")
+		res, err := a.C.Query("select note, data from t1")
+		good := err == nil && res.Err == "" && len(res.Rows) == 2 && res.Rows[0][1] != nil && res.Rows[1][1] != nil &&
+			string(*res.Rows[0][1]) == "SECRETMARKER14" && string(*res.Rows[1][1]) == "SECRETMARKER15"
+		r.Check(good, "owner-read-mismatch", "select note, data from t1 with note = '' in the first row: the text row that begins with an empty string ends the result set for the proxy, the owner reads ciphertext (decryptor/mysql/response_proxy.go QueryResponseHandler)")
+		w.Close()
+	}
+	// 8d. KNOWN: the placeholder settings of an earlier prepared statement rewrite the parameter definitions of a later one
+	{
+		r.Begin("corpus-my-paramdef-stale-settings", true, "case:corpus")
+		w, a := myOpen()
+		st, _, err := a.C.Prepare("insert into t2 (id, data) values (?, ?)")
+		if err == nil && st != nil {
+			a.C.Execute(st, []fakemy.Param{{Type: fakemy.TypeLong, Data: []byte("1")}, {Type: fakemy.TypeVarString, Data: []byte("TYPEDVALUE0004")}}, true)
+		}
+		cin0, _ := a.C.Marks()
+		dout0 := w.DB.Out.Len()
+		_, _, err = a.C.Prepare("select note from t1 where id = ? and note = ?")
+		cin1, _ := a.C.Marks()
+		r.Check(err == nil && bytes.Equal(a.C.In.Bytes()[cin0:cin1], w.DB.Out.Bytes()[dout0:]), "my-paramdef-stale-settings", "COM_STMT_PREPARE of a statement without protected parameters after a prepared INSERT into a data_type column: the definition of the parameter with the same index comes back rewritten")
+		w.Close()
+	}
 	// 9. KNOWN: INSERT … SELECT is not analysed (both front ends)
 	{
 		r.Begin("corpus-insert-select", true, "case:corpus")
